@@ -14,6 +14,8 @@ package recovery
 //@   requires [grid] reader.DriveIsRegular ==> pipes.RecordSize >= 1 && record >= 0 && block >= 0 && block < pipes.RecordSize
 //@   loop 1 invariant [position] trBroken[tr] || (0 <= block && block < pipes.RecordSize && 512*(pipes.RecordSize*record+block) == drivePos[reader.Drive] + trSkip[tr] && trSrc(tr) == reader.Drive && trUnread[tr] == 0)
 //@   at call indexHeader#1 assert [header-position] 512*(pipes.RecordSize*arg_record+arg_block) == hdrStart(arg_hdr) && 0 <= arg_block && arg_block < pipes.RecordSize
+//@   property C06
+//@   at call Seek#3 assert [resync-forward] arg_offset >= curr && arg_offset - curr < 512 && arg_offset % 512 == 0 && arg_whence == 0
 //@   property C08
 //@   maybe verifyHeader is HeaderVerifier|NoopVerifier
 //@   maybe decryptHeader is HeaderSubst|HeaderDecryptor
@@ -29,6 +31,8 @@ package recovery
 //@   property C04
 //@   requires [grid] reader.DriveIsRegular ==> pipes.RecordSize >= 1 && record >= 0 && block >= 0 && block < pipes.RecordSize
 //@   loop 1 invariant [position] trBroken[tr] || (0 <= block && block < pipes.RecordSize && 512*(pipes.RecordSize*record+block) == drivePos[reader.Drive] + trSkip[tr] && trSrc(tr) == reader.Drive && trUnread[tr] == 0)
+//@   property C06
+//@   at call Seek#3 assert [resync-forward] arg_offset >= curr && arg_offset - curr < 512 && arg_offset % 512 == 0 && arg_whence == 0
 //@   property C08
 //@   at call append#1 assert [accept-site] hdrVerified[hdr]
 //@   property C04
@@ -44,3 +48,11 @@ package recovery
 //@   property C08
 //@   at call getDst assert [accept-site] hdrVerified[hdr]
 //@   at call mkdirAll assert [accept-site-dir] hdrVerified[hdr]
+
+//@ func indexHeader
+//@   property C10
+//@   safety C10
+//@   modifies *, indexWrites, hdrVerified[hdr], hdrSubstituted[hdr], hdrSealed[hdr], ghosts(C14)
+//@   property C03
+//@   at call RemoveSuffix#1 assert [suffix-stripped-only-when-added] old(has(hdr.PAXRecords, "STFS.UncompressedSize")) && !old(has(hdr.PAXRecords, "STFS.ReplacesName")) && old(hdr.PAXRecords["STFS.ReplacesContent"]) != "false"
+//@   at call FileInfo#1 assert [stored-size-is-content-length] old(has(hdr.PAXRecords, "STFS.UncompressedSize")) ==> hdr.Size == atoiF(old(hdr.PAXRecords["STFS.UncompressedSize"]))
